@@ -1,22 +1,24 @@
 /-
 HollowPlanar3DCode, all sizes, C17 (3/3): the weights of the listed logicals and the reported
-distance; the cross-section `x = 3` is a non-trivial logical operator of weight `wZ`; the true
-distance `min Lx wZ`.
+distance `min Lx wZ`; every cross-section of existing x edges is a non-trivial logical operator (the
+one at `x = 3` of weight `wZ`); the true distance `min Lx wZ`; regression: the logical Z before the
+repair of `get_logicals_z` (the full end plane `x = 1`, `oldLattice`) had weight `Ly·Lz`, so that
+`code.d` was `min Lx (Ly·Lz)`.
 -/
 import PanqecVerif.Proofs.DistHollowPlanar3DCodeB
 import PanqecVerif.Proofs.Dist
 
 namespace Panqec.HollowPlanar3DCode
 open Panqec.Cubic3D Panqec.Lat2D
-open Panqec.Planar3DCode (inE inO inE2 inO1 lxK lzK lineX planeX length_uop)
+open Panqec.Planar3DCode (inE inO inE2 inO1 lxK lzK lineX planeX length_uop lzK_nodup)
 
 variable {Lx Ly Lz : Nat}
 
-/-- the row of `logicals_x` has weight `Lx` (a line), the row of `logicals_z` weight `Ly·Lz`
-    (the full plane `x = 1`) -/
+/-- the row of `logicals_x` has weight `Lx` (a line), the row of `logicals_z` weight `wZ` (the
+    existing x edges of the cross-section `x = 3` when `Lx ≥ 3`, the full plane `x = 1` otherwise) -/
 theorem weights_listed (hwf : (lattice Lx Ly Lz).WF) :
     (lattice Lx Ly Lz).rowsX.map pauliWeight = [Lx] ∧
-    (lattice Lx Ly Lz).rowsZ.map pauliWeight = [Ly * Lz] := by
+    (lattice Lx Ly Lz).rowsZ.map pauliWeight = [wZ Lx Ly Lz] := by
   have hw : ∀ a ∈ (lattice Lx Ly Lz).logX ++ (lattice Lx Ly Lz).logZ,
       pauliWeight (opRow (lattice Lx Ly Lz).qubits a) = a.length := fun a ha =>
     pauliWeight_opRow _ hwf.qubits_nodup a (hwf.log_keys a ha) (hwf.log_supported a ha)
@@ -24,18 +26,53 @@ theorem weights_listed (hwf : (lattice Lx Ly Lz).WF) :
   unfold Lattice.rowsX Lattice.rowsZ
   rw [lattice_logX, lattice_logZ, logX_eq, logZ_eq]
   simp only [List.map_cons, List.map_nil]
-  rw [hw _ (by simp), hw _ (by simp)]
-  simp only [length_uop, lxK, lzK, List.length_map, length_grid2, Planar3DCode.length_rangeE,
-    Planar3DCode.length_rangeO1]
+  rw [hw _ (by simp), hw _ (by simp), length_uop, length_uop, length_crossX_zIdx]
+  simp only [lxK, List.length_map, Planar3DCode.length_rangeO1]
   exact ⟨trivial, trivial⟩
 
-/-- `code.d` (minimum weight of the listed logicals) is `min Lx (Ly·Lz)` -/
+/-- `code.d` (minimum weight of the listed logicals) is `min Lx wZ` -/
 theorem reported_distance (hwf : (lattice Lx Ly Lz).WF) :
-    distance (lattice Lx Ly Lz).rowsX (lattice Lx Ly Lz).rowsZ = some (min Lx (Ly * Lz)) := by
+    distance (lattice Lx Ly Lz).rowsX (lattice Lx Ly Lz).rowsZ = some (min Lx (wZ Lx Ly Lz)) := by
   obtain ⟨h1, h2⟩ := weights_listed hwf
   unfold distance
   show (match listMin ((lattice Lx Ly Lz).rowsX.map pauliWeight),
     listMin ((lattice Lx Ly Lz).rowsZ.map pauliWeight) with
+    | some a, some b => some (min a b)
+    | _, _ => none) = _
+  rw [h1, h2]
+  rfl
+
+/-! ### regression: the logical Z before the repair (the full end plane `x = 1`) -/
+
+/-- the generators are not affected by the repair of `get_logicals_z` -/
+theorem oldLattice_rowsH (Lx Ly Lz : Nat) :
+    (oldLattice Lx Ly Lz).rowsH = (lattice Lx Ly Lz).rowsH := rfl
+
+theorem oldLattice_rowsX (Lx Ly Lz : Nat) :
+    (oldLattice Lx Ly Lz).rowsX = (lattice Lx Ly Lz).rowsX := rfl
+
+/-- before the repair the row of `logicals_z` had weight `Ly·Lz` (the full plane `x = 1`) -/
+theorem old_weights_listed (hwf : (lattice Lx Ly Lz).WF) (hLx : 1 ≤ Lx) :
+    (oldLattice Lx Ly Lz).rowsX.map pauliWeight = [Lx] ∧
+    (oldLattice Lx Ly Lz).rowsZ.map pauliWeight = [Ly * Lz] := by
+  refine ⟨by rw [oldLattice_rowsX]; exact (weights_listed hwf).1, ?_⟩
+  unfold Lattice.rowsZ
+  rw [oldLattice_logZ, oldLattice_qubits, oldLogZ_eq]
+  simp only [List.map_cons, List.map_nil]
+  rw [pauliWeight_opRow _ (qubits_nodup Lx Ly Lz) _ (keysNodup_uop Pauli.Z (lzK_nodup Ly Lz))
+    (fun e he => by
+      rw [mem_uop] at he
+      exact ⟨lzK_sub hLx _ he.1, by rw [he.2]; decide⟩), length_uop]
+  simp only [lzK, length_grid2, Planar3DCode.length_rangeE]
+
+/-- before the repair `code.d` was `min Lx (Ly·Lz)` -/
+theorem old_reported_distance (hwf : (lattice Lx Ly Lz).WF) (hLx : 1 ≤ Lx) :
+    distance (oldLattice Lx Ly Lz).rowsX (oldLattice Lx Ly Lz).rowsZ =
+      some (min Lx (Ly * Lz)) := by
+  obtain ⟨h1, h2⟩ := old_weights_listed hwf hLx
+  unfold distance
+  show (match listMin ((oldLattice Lx Ly Lz).rowsX.map pauliWeight),
+    listMin ((oldLattice Lx Ly Lz).rowsZ.map pauliWeight) with
     | some a, some b => some (min a b)
     | _, _ => none) = _
   rw [h1, h2]
@@ -70,17 +107,17 @@ theorem cross_nontrivial (hwf : (lattice Lx Ly Lz).WF) (hcp : (lattice Lx Ly Lz)
   have hk : KeysNodup (uop (crossX Lx Ly Lz i) Pauli.Z) := keysNodup_line Pauli.Z (crossX_nodup i)
   have hsup : opSupported (lattice Lx Ly Lz).qubits (uop (crossX Lx Ly Lz i) Pauli.Z) = true := by
     rw [lattice_qubits]; exact opSupported_line Pauli.Z (crossX_sub hi)
-  have hz : uop (lzK Ly Lz) Pauli.Z ∈ (lattice Lx Ly Lz).logZ := by
+  have hz : uop (crossX Lx Ly Lz (zIdx Lx)) Pauli.Z ∈ (lattice Lx Ly Lz).logZ := by
     rw [lattice_logZ, logZ_eq]; simp
   have hx : uop (lxK Lx) Pauli.X ∈ (lattice Lx Ly Lz).logX := by
     rw [lattice_logX, logX_eq]; simp
   -- parities of the cross-section = parities of `Z̄`
   have key : ∀ b : Op, CommStabs Lx Ly Lz b →
       opAntiCount (uop (crossX Lx Ly Lz i) Pauli.Z) b % 2 =
-        opAntiCount (uop (lzK Ly Lz) Pauli.Z) b % 2 := by
+        opAntiCount (uop (crossX Lx Ly Lz (zIdx Lx)) Pauli.Z) b % 2 := by
     intro b hb
-    rw [← crossX_zero (Lx := Lx), opAntiCount_uop_hit, opAntiCount_uop_hit]
-    exact parity_Z hb i hi
+    rw [opAntiCount_uop_hit, opAntiCount_uop_hit, parity_Z hb i hi,
+      parity_Z hb (zIdx Lx) (zIdx_lt (by omega))]
   refine ⟨by rw [opRow_length, lattice_qubits, hn], opRow_binary _ _, ?_, ?_⟩
   · intro g hg
     unfold Lattice.rowsH at hg
@@ -117,7 +154,7 @@ theorem cross_weight (hwf : (lattice Lx Ly Lz).WF) {i : Nat} (hi : i < Lx) :
   exact ⟨crossX_sub hi _ he.1, by rw [he.2]; decide⟩
 
 /-- **the true distance**, every size: `min Lx wZ` -/
-theorem true_distance (hwf : (lattice Lx Ly Lz).WF) (hcp : (lattice Lx Ly Lz).CommPair)
+theorem true_distance (hwf : (lattice Lx Ly Lz).WF)
     {n : Nat} (hn : (qubits Lx Ly Lz).length = n)
     (hv : ValidCodeL n 1 (lattice Lx Ly Lz).rowsH (lattice Lx Ly Lz).rowsX
       (lattice Lx Ly Lz).rowsZ) :
@@ -133,20 +170,14 @@ theorem true_distance (hwf : (lattice Lx Ly Lz).WF) (hcp : (lattice Lx Ly Lz).Co
     unfold Lattice.rowsX at w1
     rw [lattice_logX, logX_eq] at w1
     simpa using w1
-  · rw [Nat.min_eq_right (by omega)]
-    by_cases h3 : 3 ≤ Lx
-    · -- the cross-section through the hole
-      refine ⟨_, cross_nontrivial hwf hcp hn hv (i := 1) (by omega), ?_⟩
-      rw [cross_weight hwf (by omega), length_crossX_one]
-    · -- no hole: the listed plane
-      have hz : opRow (lattice Lx Ly Lz).qubits (uop (lzK Ly Lz) Pauli.Z) ∈
-          (lattice Lx Ly Lz).rowsZ := by
-        unfold Lattice.rowsZ; rw [lattice_logZ, logZ_eq]; simp
-      refine ⟨_, listedZ_nontrivial hv hz, ?_⟩
-      unfold Lattice.rowsZ at w2
-      rw [lattice_logZ, logZ_eq] at w2
-      have : wZ Lx Ly Lz = Ly * Lz := by unfold wZ; rw [if_neg h3]; omega
-      rw [this]
-      simpa using w2
+  · -- the listed Z membrane
+    rw [Nat.min_eq_right (by omega)]
+    have hz : opRow (lattice Lx Ly Lz).qubits (uop (crossX Lx Ly Lz (zIdx Lx)) Pauli.Z) ∈
+        (lattice Lx Ly Lz).rowsZ := by
+      unfold Lattice.rowsZ; rw [lattice_logZ, logZ_eq]; simp
+    refine ⟨_, listedZ_nontrivial hv hz, ?_⟩
+    unfold Lattice.rowsZ at w2
+    rw [lattice_logZ, logZ_eq] at w2
+    simpa using w2
 
 end Panqec.HollowPlanar3DCode
